@@ -288,7 +288,11 @@ def run_problem(prob, method, x0mode, rec, rng, seams):
     fo = rf(xo)
     tol = 10 * abs(gap_raw) + 1e-6 * (1 + abs(fstar))
     rec.disc("end-to-end:objective-gap", (fo - fstar) / (1 + abs(fstar)))
-    if fo - fstar > tol or np.linalg.norm(xo - xstar) > 1e-3 * (1 + np.linalg.norm(xstar)) + 10 * np.linalg.norm(raw.x - xstar):
+    # the statement bounds the objective gap, f(x_optyx) - f(x*) <= tol; the distance of the points is recorded, not judged
+    # (trust-constr stopping on xtol along a flat direction was met 2e-3 away from x* with a gap of 1e-5: a false alarm of an
+    # earlier version of this check that also demanded |x - x*| <= 1e-3)
+    rec.disc("end-to-end:point-distance", float(np.linalg.norm(xo - xstar) / (1 + np.linalg.norm(xstar))))
+    if fo - fstar > tol:
         bad("end-to-end:optyx-optimum-differs-from-raw-scipy", f_optyx=fo, f_raw=float(raw.fun), fstar=fstar, x_optyx=xo.tolist(), x_raw=raw.x.tolist())
         return
     # the same problem object solved again (cached callables): deterministic solvers must reproduce the first result
@@ -419,7 +423,7 @@ def run_param_history(rec, rng, seams, method):
             bad("parameters:raw-scipy-converges-but-optyx-is-" + sol.status.value, step=step, message=sol.message[:120])
             return
         xo = np.array([sol.values[nm] for nm in names])
-        if rf(xo) - float(raw.fun) > 1e-5 * (1 + abs(float(raw.fun))) or np.linalg.norm(xo - raw.x) > 2e-3 * (1 + np.linalg.norm(raw.x)):
+        if rf(xo) - float(raw.fun) > 1e-5 * (1 + abs(float(raw.fun))):
             bad("parameters:optimum-differs-from-raw-scipy-at-current-parameters", step=step, f_optyx=rf(xo), f_raw=float(raw.fun), x_optyx=xo.tolist(), x_raw=raw.x.tolist())
             return
     rec.sample(show, cap=2)
